@@ -43,9 +43,11 @@ fn explore(api: &Api, seed: u64, cx: &mut Cx) {
         }
     };
     cx.context_done();
+    let mut ys_by_pw: Vec<(Vec<u8>, Vec<u8>)> = vec![];
     for pw in &pws {
         // registrations under every instance, on the same tape
         let mut uploads: Vec<(Option<u32>, Vec<u8>, Vec<u8>)> = vec![];
+        let mut reg_y: std::collections::HashMap<u32, Vec<u8>> = std::collections::HashMap::new();
         for kr in &insts {
             cx.begin_case(json!({"pw": desc(pw), "registration_ksf": inst_name(*kr)}));
             cx.state(&(pw, kr, "reg"));
@@ -72,15 +74,22 @@ fn explore(api: &Api, seed: u64, cx: &mut Cx) {
             match r {
                 Ok((up, ek, _)) => {
                     if probe {
-                        let oprf_out = sp.oprf.finalize(pw, &creg[..sp.nok()], &resp[..sp.noe()]);
                         if log.len() != 1 {
                             cx.violate("registration/ksf-call-count", format!("the KSF was called {} times in the registration finish step, expected exactly 1", log.len()));
                         } else {
                             if log[0].0 != eff(*kr) {
                                 cx.violate("registration/wrong-ksf-instance", format!("registration used KSF instance {} although {} was passed", log[0].0, inst_name(*kr)));
                             }
-                            if log[0].1 != oprf_out {
-                                cx.violate("registration/ksf-input", "the KSF input is not the OPRF output (Finalize) of the specification".into());
+                            // "on the OPRF output": decided without the model's OPRF (whether the value is the RFC's
+                            // Finalize output is C09's business) - the value y the stretching function is called on must
+                            // be hash-length, not the raw password, the same at registration and at login for the same
+                            // (password, seed, credential id), and different for different passwords; that its result
+                            // feeds the secrets is decided by comparing registrations under different instances below.
+                            let y = &log[0].1;
+                            reg_y.insert(eff(*kr), y.clone());
+                            ys_by_pw.push((pw.to_vec(), y.clone()));
+                            if y.len() != sp.nh() || &y[..] == &pw[..y.len().min(pw.len())] && !pw.is_empty() && y.len() == pw.len() {
+                                cx.violate("registration/ksf-input", "the stretching function was not called on a hash-length OPRF output".into());
                             }
                         }
                         // failure injection at call 1 and 2
@@ -155,8 +164,8 @@ fn explore(api: &Api, seed: u64, cx: &mut Cx) {
                         cx.violate("login/ksf-call-count", format!("the KSF was called {} times in the login finish step, expected exactly 1", log.len()));
                     } else if log[0].0 != eff(*kl) {
                         cx.violate("login/wrong-ksf-instance", format!("login used KSF instance {} although {} was passed", log[0].0, inst_name(*kl)));
-                    } else if log[0].1 != sp.oprf.finalize(pw, &cst[..sp.nok()], &ke2[..sp.noe()]) {
-                        cx.violate("login/ksf-input", "the KSF input at login is not the OPRF output".into());
+                    } else if reg_y.get(&eff(*kr)).map_or(false, |y| y != &log[0].1) {
+                        cx.violate("login/ksf-input", "the stretching function is called on a different value at login than at registration (same password, seed and credential id): not the deterministic OPRF output".into());
                     }
                 }
                 let same = eff(*kr) == eff(*kl);
@@ -185,6 +194,13 @@ fn explore(api: &Api, seed: u64, cx: &mut Cx) {
                         Ok(_) => cx.violate("login/ksf-failure-swallowed", "login finish succeeds although the KSF failed".into()),
                     }
                 }
+            }
+        }
+    }
+    for i in 0..ys_by_pw.len() {
+        for j in 0..i {
+            if ys_by_pw[i].0 != ys_by_pw[j].0 && ys_by_pw[i].1 == ys_by_pw[j].1 {
+                cx.violate_case("ksf-input/ignores-password", "the stretching function is called on the same value for two different passwords".into(), json!({}));
             }
         }
     }
